@@ -342,15 +342,16 @@ def mon_C02(case):
                     fails.append(Fail(case, i, "evicted pair %d:%d does not match the stored value %s" % (ek, evv, truth.get(ek))))
                 truth.pop(ek, None)
             truth[k] = v
-        elif op == "remove":
+        elif op in ("remove", "removeres"):
             k = int(toks[1])
-            v = parse_optv(res)
+            v = parse_optv(res) if res != "skip" else None
             if v is not None:
                 if k not in truth:
                     fails.append(Fail(case, i, "remove(%d) returned %s for a key that was not stored" % (k, v)))
                 elif truth[k] != v:
                     fails.append(Fail(case, i, "remove(%d) returned %s, stored value is %s" % (k, v, truth[k])))
-            truth.pop(k, None)
+            if res != "skip":
+                truth.pop(k, None)
         elif op == "purge":
             truth = {}
         else:
@@ -436,8 +437,8 @@ def handed(case, l, st_before):
         if e is not None and int(toks[1]) != 0:
             inn["v%s" % toks[1]] += 1
             back["v%d" % e[1]] += 1
-    elif op == "remove":
-        v = parse_optv(res)
+    elif op in ("remove", "removeres"):
+        v = parse_optv(res) if res != "skip" else None
         if v is not None:
             back["v%d" % v] += 1
     elif op in ("removelru", "removelruprob", "removelruprot"):
@@ -490,6 +491,9 @@ def mon_C04(case):
                 lost = lhs - rhs
                 extra = rhs - lhs
                 fails.append(Fail(case, i, "ownership not conserved: unaccounted %s, accounted twice %s" % (dict(lost), dict(extra))))
+        # "purge releases every retained key and value": nothing may be retained (resident or ghost) right after it
+        if l.op == "purge" and retained_multiset(st):
+            fails.append(Fail(case, i, "purge left entries retained: %s" % dict(retained_multiset(st))))
         before = st
     # final drop: everything still retained is released
     if case.end is not None and "dr" in case.end.named and before is not None and not any(l.op in ("clone", "clonefrom", "swap") for l in case.lines):
@@ -655,12 +659,12 @@ def mon_C06(case):
                 expres = "some %d:%d" % old[-1] if old else "none"
         elif op == "removelru":
             exp, expres = (old[:-1], "some %d:%d" % old[-1]) if old else (old, "none")
-        elif op == "remove":
+        elif op in ("remove", "removeres"):
             k = int(toks[1])
             if k in keys:
                 exp, expres = [e for e in old if e[0] != k], "some %d" % dict(old)[k]
             else:
-                exp, expres = old, "none"
+                exp, expres = old, ("none" if op == "remove" else "skip")
         elif op == "purge":
             exp = []
         elif op == "resize":
@@ -703,8 +707,14 @@ def mon_C12(case):
         for i, l in enumerate(case.lines):
             t = l.lhs.split()
             res = l.pos[0].strip() if l.pos else ""
-            if t[0] == "preq" and res != ("true" if t[1] == t[2] else "false"):
+            # payload 9 is the value that is not equal to itself: equal = same variant, payloads pairwise `==`
+            def eq(a, b):
+                pa, pb = a.split(":"), b.split(":")
+                return pa[0] == pb[0] and all(x == y and x != "9" for x, y in zip(pa[1:], pb[1:]))
+            if t[0] == "preq" and res != ("true" if eq(t[1], t[2]) else "false"):
                 fails.append(Fail(case, i, "%s == %s evaluates to %s" % (show(t[1]), show(t[2]), res)))
+            if t[0] == "preqself" and res != ("true" if eq(t[1], t[1]) else "false"):
+                fails.append(Fail(case, i, "r == r for the single object r = %s evaluates to %s (9 is not equal to itself)" % (show(t[1]), res)))
             if t[0] == "prclone" and res != show(t[1]):
                 fails.append(Fail(case, i, "clone/copy of %s is %s" % (show(t[1]), res)))
         return fails
